@@ -1,7 +1,43 @@
 import IbModel.Util.Wire
-/-! Driver handlers for C01 (request kinds served for that property). -/
+import IbModel.Driver.PipeParse
+/-! Driver handlers for the pipeline family (C01, C02, C04, C05, C07): `PIPE mode=… canon=… src … ; steps`. -/
 namespace IB.D01
+open IB IB.Wire IB.PipeParse
 
-def handlers : List (String × (List String → String)) := []
+partial def hasErr : Val → Bool
+  | .err => true
+  | .some v => hasErr v
+  | .pair a b => hasErr a || hasErr b
+  | .cons h t => hasErr h || hasErr t
+  | _ => false
+
+def render (canon : String) (r : M Part) : String :=
+  match r with
+  | .error .nestedCoGroup => "ERR nested-cogroup"
+  | .error .nonTermination => "HANG"
+  | .error .noSource => "ERR no-source"
+  | .error .unexpectedSource => "ERR unexpected-source"
+  | .error .emptyBuf => "PANIC"
+  | .ok rows =>
+    if rows.any hasErr then "PANIC"
+    else
+      let v := Val.ofList rows
+      let v := if canon == "deep" then Val.deepCanon v else v
+      "OK " ++ v.enc
+
+def handlePipe (toks : List String) : String :=
+  match parseReq toks with
+  | none => "BAD-OP"
+  | some q =>
+    if q.mode == "seq" then render q.canon (runSeq q.src q.steps)
+    else if q.mode == "lit" then render q.canon (runLiteral q.src q.steps)
+    else if q.mode == "noreorder" then render q.canon (runSeqNoReorder q.src q.steps)
+    else if q.mode.startsWith "par:" then
+      match parseNat? (q.mode.drop 4).toString with
+      | some n => render q.canon (runPar q.src q.steps n)
+      | none => "BAD-OP"
+    else "BAD-OP"
+
+def handlers : List (String × (List String → String)) := [("PIPE", handlePipe)]
 
 end IB.D01
